@@ -73,7 +73,7 @@ def run(tier, scratch, t0, replay=None):
         tf, err = K.run_truth(v, "compile", {"items": b["items"], "sections": [], "mode": "compile"}, wd, b["tag"])
         if tf is None:
             return b, None, "compile: %s" % err
-        items = [{"pyc": it["pyc"], "new": it["pyc"][:-4] + ".new.pyc", "gen": os.path.basename(it["src"])[0] in "gm"}
+        items = [{"pyc": it["pyc"], "new": it["pyc"][:-4] + ".new.pyc", "gen": os.path.basename(it["pyc"])[0] in "gm"}
                  for it in b["items"] if os.path.exists(it["pyc"])]
         outs = {}
         hosts = [K.MAIN_HOST] + ([v] if v in K.available_hosts() and v != K.MAIN_HOST else [])
@@ -103,6 +103,15 @@ def run(tier, scratch, t0, replay=None):
                 if it["gen"] and r.get("written"):
                     exec_files += [it["pyc"], r["new"]]
         ex = exec_batch(v, sorted(set(exec_files)), wd, b["tag"] + "-exec")
+        # determinism control: each original is executed a second time (other process, other order); a program whose own two
+        # runs differ (addresses, time, hash order ...) cannot witness a difference made by the rewrite
+        origs = sorted(set(it["pyc"] for h, (its, recs) in outs.items() for it, r in zip(its, recs) if it["gen"] and r.get("written")))
+        ex2 = exec_batch(v, list(reversed(origs)), wd, b["tag"] + "-exec2")
+        for p in origs:
+            a, c = ex.get(p), ex2.get(p)
+            if a and c and a.get("ok") and c.get("ok") and \
+                    (a["stdout"], a["exc"], nan_norm(a["globals"])) != (c["stdout"], c["exc"], nan_norm(c["globals"])):
+                a["nondeterministic"] = True
         return b, (outs, canon, ex, crashed, files), None
 
     accepted = refused = 0
@@ -157,7 +166,9 @@ def run(tier, scratch, t0, replay=None):
                     disagreements += 1
                 if it["gen"]:
                     eo, en = ex.get(it["pyc"]), ex.get(r["new"])
-                    if eo and en and eo.get("ok") and n is not None and n.get("ok"):
+                    if eo and eo.get("nondeterministic"):
+                        res.count("c13_program_not_deterministic_exec_comparison_skipped")
+                    elif eo and en and eo.get("ok") and n is not None and n.get("ok"):
                         res.count("c13_exec_comparisons")
                         if not en.get("ok"):
                             res.mismatches.append({"key": "C13|%s|exec|rewritten-file-fails:%s" % (tag, (en.get("crash") or en.get("error") or "?")[:40]),
